@@ -211,6 +211,8 @@ class Repo:
             self.functions[f.qualname] = f
     self.consulted = set()
     self.flattened = {}
+    self.pinned_names = None
+    self.residual_helpers = set()
     if flatten:
       import json
       from mmsa import canon, inline
@@ -218,6 +220,18 @@ class Repo:
       with open(os.path.join(os.path.dirname(os.path.abspath(__file__)), 'pinned_names.json')) as fh:
         pinned = set(json.load(fh))
       self.flattened = inline.flatten_repo(self, pinned)
+      self.pinned_names = pinned
+      # helpers (functions that are not anchors) still called by name from some anchor after flattening: they were not
+      # inlined at that site (generators, recursion, unusual call forms) and remain part of the analysed program
+      names_called = set()
+      for q_, f_ in self.functions.items():
+        if q_ in pinned:
+          for c_ in ast.walk(f_.node):
+            if isinstance(c_, ast.Call):
+              names_called.add(c_.func.attr if isinstance(c_.func, ast.Attribute) else c_.func.id if isinstance(c_.func, ast.Name) else None)
+            elif isinstance(c_, (ast.Attribute, ast.Name)) and isinstance(getattr(c_, 'ctx', None), ast.Load):
+              names_called.add(c_.attr if isinstance(c_, ast.Attribute) else c_.id)       # passed as a value (map(self._f, xs))
+      self.residual_helpers = {q_ for q_, f_ in self.functions.items() if q_ not in pinned and f_.name in names_called}
       from mmsa import lower
       self.lowered = lower.lower_repo(self)
       # the rewritten functions must still be well-formed Python: a malformed rewrite is a checker fault (exit 2)
@@ -236,6 +250,12 @@ class Repo:
       raise AnalysisError('anchor vanished: module %s' % name)
     self.consulted.add(name)
     return self.modules[name]
+
+  def inlined_away(self, f):
+    """f is a helper (not an anchor of the pinned tree) whose every use from an anchor was inlined: its body is analysed
+    inside the anchors, the function itself is no longer part of the program the rules look at."""
+    return self.pinned_names is not None and f.qualname not in self.pinned_names and f.qualname not in self.residual_helpers \
+        and (f.outer is None or self.inlined_away(f.outer) or f.outer.qualname in self.pinned_names and False)
 
   def cls(self, qualname):
     if qualname not in self.classes:
